@@ -345,10 +345,21 @@ func (h *vHarness) execConc(i int, st vStep, ev *vEvent) {
 			idle = time.Time{}
 			continue
 		}
-		if idle.IsZero() {
+		// nobody is at a gate: a deadlock only if every remaining operation stays parked on a mutex (a goroutine that was
+		// woken but has not been given the CPU yet is runnable, not parked)
+		allParked := true
+		for _, p := range c.procs {
+			if p.fn == nil || p.state == "done" {
+				continue
+			}
+			if st, _ := vWaitReason(p.run.gid); !vIsParked(st) {
+				allParked = false
+			}
+		}
+		if idle.IsZero() || !allParked {
 			idle = time.Now()
 		}
-		if time.Since(idle) > 400*time.Millisecond {
+		if time.Since(idle) > 600*time.Millisecond {
 			for _, p := range c.procs {
 				if p.fn != nil && p.state == "lockwait" {
 					hung = true
